@@ -103,6 +103,9 @@ def plan_payloads(ctx, q):
         # every input matters here, also those that leave the value unset: explore every operation sequence
         ("ids", dict(data=[X], ids=all_strs(HOSTILE, L), types=[], max_ops=2, max_appends=1, view_hist=True)),
         ("types", dict(data=[X], ids=[], types=all_strs(HOSTILE, L), max_ops=2, max_appends=1, view_hist=True)),
+        # bytes / runes that Unicode-aware helpers treat as space or line break: ordinary payload here (no extra line, nothing trimmed)
+        ("unispace", dict(data=all_strs(["LF", "SP", "x", "VT", "FORMFEED", "NEL", "NBSP", "LS"], L), ids=[["x", "NEL"], ["LS", "x"], ["VT"]], types=[["NBSP", "x"], ["FORMFEED"]],
+                          max_ops=3, max_appends=1)),
         ("families", dict(data=[X, INJECT, INJECT2, ["LF"], []], comments=[["x", "LF", "data", "COLON", "y"]], ids=ids2[:3], types=[X, ["data"]],
                           retries=["ms1", "neg"], max_msgs=2 if q else 3, max_ops=2, max_appends=1)),
     ]
